@@ -146,7 +146,7 @@ static Json treeOf(const rx::Node &n)
   for (auto &kv : n.properties) {
     Json g = Json::array();
     g.push(S(n.getProp(kv.first)));
-    g.push(S(n.getProp(kv.first, "\x01fallback")));
+    g.push(S(n.getProp(kv.first, "\x01" "fallback")));
     g.push(Json(n.hasProp(kv.first)));
     gs.push(g);
   }
